@@ -7,6 +7,7 @@ helpers (`SFTPServer.set_file_attr`, `SFTPServer.convert_errno`, `SFTPHandle` de
 read/write) and can be wrapped by a fault plan.
 
     env = SftpEnv(root_dir, fault_plan=None)      # context manager
+                                                  # (handle_buffering=0: unbuffered server-side files)
     env.client            -> paramiko.SFTPClient
     env.root              -> served directory (client path "/x" == root + "/x")
     env.raw()             -> RawClient on a *second* session (own server thread)
@@ -223,7 +224,8 @@ def make_server_classes():
             else:
                 fstr = "rb"
             try:
-                f = os.fdopen(fd, fstr)
+                hb = getattr(self.env, "handle_buffering", None)
+                f = os.fdopen(fd, fstr) if hb is None else os.fdopen(fd, fstr, hb)
             except OSError as e:
                 return SFTPServer.convert_errno(e.errno)
             fobj = Handle(flags)
@@ -307,8 +309,12 @@ def make_server_classes():
 
 
 class SftpEnv:
-    def __init__(self, root, fault_plan=None, loop_limit=10000, start_client=True):
+    def __init__(self, root, fault_plan=None, loop_limit=10000, start_client=True, handle_buffering=None):
         self.root = root
+        # None: server-side handles wrap a buffered Python file (as the repo's stub server does).
+        # 0: unbuffered handles - a size change made through the *path* (FSETSTAT -> set_file_attr)
+        # is then seen by later reads through the handle, like with a pread()-based server.
+        self.handle_buffering = handle_buffering
         self.fault_plan = fault_plan
         self.loop_limit = loop_limit
         self.server_log = []
